@@ -120,11 +120,13 @@ func run(c *vf.Ctx) {
 			}
 			c.Count("objects_rehashed", mo.N+mo.Reads)
 			if len(mo.Bad) > 0 {
-				kind := "wrong-object"
+				key := "wrong-object:" + mode + ":" + class
 				if m.Kind == "idxread" {
-					kind = "idxread-wrong-object"
+					key = "idxread-wrong-object:" + mode + ":" + class
+				} else if ft := analyze(Apply(sps, m), packlab.HashSize(format)); ft.UndersizedObject && allUndersizedNames(mo.Bad) {
+					key = "undersized-object:named-by-declared-size"
 				}
-				c.Fail(kind+":"+mode+":"+class, fmt.Sprintf("mode %s yields an object whose content does not hash to its name on %s: %s", mode, describe(m, class), strings.Join(mo.Bad, "; ")), m)
+				c.Fail(key, fmt.Sprintf("mode %s yields an object whose content does not hash to its name on %s: %s", mode, describe(m, class), strings.Join(mo.Bad, "; ")), m)
 			}
 			if m.Kind == "idxread" {
 				c.Count("idxread_reads", mo.Reads)
@@ -137,8 +139,9 @@ func run(c *vf.Ctx) {
 			} else {
 				pattern += "R"
 				if mo.Left > 0 {
-					c.Fail("rejected-pack-leaves-files:"+class, fmt.Sprintf("PackfileWriter rejected %s but left %d files in objects/pack", describe(m, class), mo.Left), m)
+					c.Fail("rejected-pack-stays-visible:"+class, fmt.Sprintf("PackfileWriter rejected %s but left %d pack-* files in objects/pack", describe(m, class), mo.Left), m)
 				}
+				c.Count("rejected_packwriter_tmp_files_left", mo.LeftTmp)
 			}
 		}
 		if m.Kind == "idxread" {
@@ -147,7 +150,13 @@ func run(c *vf.Ctx) {
 		}
 		if len(acc) > 0 {
 			c.Count("accepted_by_some_mode", 1)
-			jobs = append(jobs, gitJob{m, acc})
+			// quick tier: inputs whose only oddity is an entry inflating to less than declared (one known root cause,
+			// several hundred inputs) are confirmed with git one time in three; everything else always
+			if ft := analyze(Apply(sps, m), packlab.HashSize(format)); c.Quick() && (ft.UndersizedObject || ft.UndersizedDelta) && m.N%3 != 0 {
+				c.Count("accepted_undersized_not_sent_to_git", 1)
+			} else {
+				jobs = append(jobs, gitJob{m, acc})
+			}
 		} else {
 			c.Count("rejected_by_all_modes", 1)
 			if m.N%20 == 0 || m.Op == "none" || strings.HasPrefix(m.Op, "hand:") {
@@ -171,8 +180,11 @@ func run(c *vf.Ctx) {
 			return
 		}
 		res := g.RunIn(work, data, "index-pack", "--stdin")
+		for try := 0; try < 3 && res.Code < 0 && !res.Timeout; try++ { // could not start git (machine under load): retry
+			res = g.RunIn(work, data, "index-pack", "--stdin")
+		}
 		if res.Timeout || res.Code < 0 {
-			c.Inconclusive("git index-pack did not finish on input %d (%s)", m.N, class)
+			c.Inconclusive("git index-pack did not finish on input %d (%s): %s", m.N, class, res)
 			return
 		}
 		c.Count("git_confirmations", 1)
@@ -199,17 +211,31 @@ func run(c *vf.Ctx) {
 			reason := gitReason(string(res.Err))
 			c.Seen("git_reject_reasons", reason)
 			c.Count("accepts_git_rejects", 1)
+			ft := analyze(data, packlab.HashSize(format))
 			for _, mode := range j.accepted {
-				c.Fail("accepts-what-git-rejects:"+mode+":"+class,
-					fmt.Sprintf("mode %s accepts %s (yielding %d objects); git index-pack --stdin rejects the same bytes: %s", mode, describe(m, class), r.res[mode].N, strings.TrimSpace(string(res.Err))), m)
+				key := "accepts-what-git-rejects:" + mode + ":" + class
+				switch {
+				case ft.UndersizedObject:
+					key = "accepts-what-git-rejects:undersized-object"
+				case ft.UndersizedDelta:
+					key = "accepts-what-git-rejects:undersized-delta"
+				case ft.DeltaTruncated && ft.WalkedAll:
+					key = "accepts-what-git-rejects:delta-instruction-truncated"
+				case ft.DeltaTiny && ft.WalkedAll && !ft.DeltaShortTarget:
+					key = "accepts-what-git-rejects:delta-shorter-than-4-bytes"
+				case m.Op == "dupentry" && strings.Contains(reason, "already resolved"):
+					key = "accepts-what-git-rejects:duplicated-ref-delta-base"
+				}
+				c.Fail(key, fmt.Sprintf("mode %s accepts %s (yielding %d objects); git index-pack --stdin rejects the same bytes: %s", mode, describe(m, class), r.res[mode].N, strings.TrimSpace(string(res.Err))), m)
 			}
 			return
 		}
 		c.Count("both_accept", 1)
 		// same object set?
-		f := strings.Fields(string(res.Out))
+		// with --stdin git copies whatever follows the pack to stdout: only the first line is the report
+		f := strings.Fields(firstLine(string(res.Out)))
 		if len(f) != 2 {
-			c.Broken("index-pack output %q", res.Out)
+			c.Broken("index-pack output %q", firstLine(string(res.Out)))
 			return
 		}
 		idx, err := os.ReadFile(filepath.Join(work, "objects", "pack", "pack-"+f[1]+".idx"))
@@ -247,13 +273,13 @@ func run(c *vf.Ctx) {
 	})
 
 	c.Extra("git_invocations", gitx.Calls.Load())
-	c.Floor("hostile inputs evaluated", c.Counter("accepted_by_some_mode")+c.Counter("rejected_by_all_modes")+c.Counter("idxread_inputs"), c.N(5000, 40000))
-	c.Floor("entry-point runs", c.Counter("mode_runs"), c.N(20000, 160000))
+	c.Floor("hostile inputs evaluated", c.Counter("accepted_by_some_mode")+c.Counter("rejected_by_all_modes")+c.Counter("idxread_inputs"), c.N(1400, 30000))
+	c.Floor("entry-point runs", c.Counter("mode_runs"), c.N(5500, 120000))
 	c.Floor("mutation classes", c.SeenCount("classes"), c.N(60, 70))
-	c.Floor("inputs accepted by go-git and checked against git", c.Counter("both_accept")+c.Counter("accepts_git_rejects"), c.N(100, 800))
-	c.Floor("objects re-hashed independently", c.Counter("objects_rehashed"), c.N(20000, 200000))
-	c.Floor("git verdicts", c.Counter("git_confirmations"), c.N(400, 3000))
-	c.Floor("reads through git's idx over corrupted packs", c.Counter("idxread_reads"), c.N(5000, 40000))
+	c.Floor("inputs accepted by go-git and checked against git", c.Counter("both_accept")+c.Counter("accepts_git_rejects"), c.N(150, 2000))
+	c.Floor("objects re-hashed independently", c.Counter("objects_rehashed"), c.N(10000, 200000))
+	c.Floor("git verdicts", c.Counter("git_confirmations"), c.N(250, 3000))
+	c.Floor("reads through git's idx over corrupted packs", c.Counter("idxread_reads"), c.N(2000, 40000))
 	c.Floor("children completed", c.Counter("children_ok"), nBatches)
 	c.Assume("git 2.39.5 `index-pack --stdin` (no --strict, no fsck) is the structural acceptor: it checks signature/version, entry types, inflation and declared sizes, delta offsets/bases and application, completeness (no unresolved deltas), object count and trailer; trailing bytes after the trailer are ignored by both sides on a stream")
 	c.Assume("go-git may be stricter than git (e.g. delta chain depth > 4095, duplicated REF_DELTA bases); such inputs are counted, not reported")
@@ -261,6 +287,18 @@ func run(c *vf.Ctx) {
 }
 
 func countModes(r result) int { return len(r.res) }
+
+// allUndersizedNames: every mismatch is of the form "Size() larger than the bytes read" (name computed over the declared size).
+func allUndersizedNames(bad []string) bool {
+	for _, b := range bad {
+		var id, typ, got string
+		var n, sz int64
+		if _, err := fmt.Sscanf(b, "%s yields %s of %d bytes hashing to %s (Size()=%d)", &id, &typ, &n, &got, &sz); err != nil || sz <= n {
+			return false
+		}
+	}
+	return true
+}
 
 func describe(m Mut, class string) string {
 	b, _ := json.Marshal(m)
@@ -399,11 +437,11 @@ func crashSite(stderr string) string {
 }
 
 func firstLine(s string) string {
-	for _, ln := range strings.Split(s, "\n") {
+	for _, ln := range strings.SplitN(s, "\n", 8) {
 		ln = strings.TrimSpace(ln)
 		if ln != "" {
-			if len(ln) > 60 {
-				ln = ln[:60]
+			if len(ln) > 100 {
+				ln = ln[:100]
 			}
 			return ln
 		}
@@ -476,7 +514,7 @@ func generate(c *vf.Ctx, sps []*seedPack) []Mut {
 	}
 	r := c.Rand("gen")
 	quick := c.Quick()
-	payloadFlips := c.N(4, 30) // per entry
+	payloadFlips := c.N(3, 30) // per entry
 	idxreadFlips := c.N(2, 8)  // per entry
 	pick := func(n, k int) []int { // k distinct indexes out of n (all when thorough)
 		if !quick || k >= n {
@@ -493,6 +531,13 @@ func generate(c *vf.Ctx, sps []*seedPack) []Mut {
 				if quick && off < 8 && r.Intn(3) != 0 {
 					continue
 				}
+				// object counts >= 2^24 make go-git allocate gigabytes (see the crash finding): keep a few, they are slow
+				if off == 8 && !(bit == 7 && (quick && si%2 == 0 || !quick)) && !(bit == 6 && !quick && si == 0) {
+					continue
+				}
+				if off == 9 && bit > 3 && quick {
+					continue
+				}
 				add(Mut{Seed: si, Op: "flip", A: off, B: bit, Fix: true})
 			}
 		}
@@ -504,8 +549,11 @@ func generate(c *vf.Ctx, sps []*seedPack) []Mut {
 			add(Mut{Seed: si, Op: "version", A: v, Fix: true})
 		}
 		for ei, e := range sp.Entries {
+			if quick && (ei+si)%4 != 0 && ei > 3 {
+				continue // quick tier: every fourth entry
+			}
 			// every bit of the header (type/size varint, ofs varint) for a third of the entries (all when thorough), 3 random bits otherwise; sampled bytes of a ref base
-			exhaustive := !quick || (ei+si)%3 == 0
+			exhaustive := !quick || (ei+si)%4 == 0
 			for off := e.Off; off < e.DataOff; off++ {
 				if e.Type == 7 && off >= e.DataOff-hs && r.Intn(6) != 0 {
 					continue
@@ -528,7 +576,7 @@ func generate(c *vf.Ctx, sps []*seedPack) []Mut {
 			add(Mut{Seed: si, Op: "flip", A: e.Off + r.Intn(e.End-e.Off), B: r.Intn(8)})
 			// payload corruption read back through git's idx
 			for k := 0; k < idxreadFlips; k++ {
-				add(Mut{Seed: si, Op: "flip", A: e.Off + r.Intn(e.End-e.Off), B: r.Intn(8), Kind: "idxread"})
+				add(Mut{Seed: si, Op: "flip", A: e.DataOff + r.Intn(e.End-e.DataOff), B: r.Intn(8), Kind: "idxread"})
 			}
 			// truncations around the boundaries and inside the header
 			tr := []int{e.Off - 1, e.Off, e.Off + 1, e.DataOff, e.DataOff + 1, e.End - 1}
@@ -587,7 +635,7 @@ func generate(c *vf.Ctx, sps []*seedPack) []Mut {
 			add(Mut{Seed: si, Op: "garbage", A: r.Intn(64), B: r.Intn(1 << 30)})
 		}
 		// double faults: two header bits at once
-		for k := 0; k < c.N(40, 400); k++ {
+		for k := 0; k < c.N(25, 400); k++ {
 			e1 := sp.Entries[r.Intn(len(sp.Entries))]
 			e2 := sp.Entries[r.Intn(len(sp.Entries))]
 			add(Mut{Seed: si, Op: "flip2", A: e1.Off + r.Intn(e1.DataOff-e1.Off), B: r.Intn(8), C: (e2.Off+r.Intn(e2.DataOff-e2.Off))*8 + r.Intn(8), Fix: r.Intn(4) > 0})
@@ -603,6 +651,9 @@ func generate(c *vf.Ctx, sps []*seedPack) []Mut {
 		for _, op := range []string{"hand:inflate-short", "hand:inflate-long", "hand:huge-declared", "hand:delta-inflate-short", "hand:delta-base-size-mismatch",
 			"hand:delta-target-size-mismatch", "hand:delta-copy-oob", "hand:delta-truncated", "hand:count-huge"} {
 			for a := 0; a < c.N(3, 12); a++ {
+				if op == "hand:count-huge" && a > 0 {
+					break
+				}
 				add(Mut{Seed: -1, Op: op, A: a, B: f})
 			}
 		}
